@@ -815,9 +815,16 @@ def r4(ctx):
                   f"under include_intercept; got `{norm(l)[:140]}`")
     # rhs_index = find_rhs_index(tokens) + 1
     rhs = env.get("rhs_index")
-    ctx.check(rhs is not None and norm(rhs) == "find_rhs_index(tokens) + 1", "C01.R4", "rhs_index is one past the top-level `~`", f.where,
+    # the search helper may be a nested function or a (private) module-level function of the same module
+    helper = None
+    if isinstance(rhs, ast.BinOp) and isinstance(rhs.op, ast.Add) and isinstance(rhs.left, ast.Call) and isinstance(rhs.left.func, ast.Name) \
+            and is_const(rhs.right, 1) and [norm(a) for a in rhs.left.args] == ["tokens"] and not rhs.left.keywords:
+        helper = rhs.left.func.id
+    ctx.check(helper is not None and helper.lstrip("_") == "find_rhs_index", "C01.R4", "rhs_index is one past the top-level `~`", f.where,
               ctx.construct(f, text="rhs_index"), f"rhs_index = `{norm(rhs) if rhs is not None else None}`")
-    fr = f.locals_named("find_rhs_index")
+    fr = P.functions.get(f"{f.qualname}.<locals>.{helper}") or P.functions.get(f"{f.module.name}.{helper}") if helper else None
+    if fr is None:
+        raise AnalysisError("C01.R4: the top-level `~` search helper of get_tokens_from_formula was not found")
     r_ret = [r for r in returns_of(fr.node)]
     ok = any(norm(r.value) == "index" for r in r_ret) and any(norm(r.value) == "-1" for r in r_ret) and \
         any(isinstance(n, ast.If) and norm(n.test) == "token.token == '~'" for n in ast.walk(fr.node)) and \
